@@ -3,8 +3,10 @@
 package metajournal
 
 import (
+	"github.com/VKCOM/statshouse/internal/data_model"
 	"github.com/VKCOM/statshouse/internal/data_model/gen2/tlmetadata"
 	"github.com/VKCOM/statshouse/internal/format"
+	"github.com/VKCOM/statshouse/internal/vkgo/basictl"
 	v "github.com/VKCOM/statshouse/internal/zzverif"
 )
 
@@ -186,3 +188,78 @@ func Harness_C20_metrics_3steps()        { c20History(3, false) }
 func Harness_C20_metrics_group_3steps()  { c20History(3, true) }
 func Harness_C20_metrics_4steps()        { c20History(4, false) }
 func Harness_C20_metrics_group_4steps()  { c20History(4, true) }
+
+// Save/reload of a journal file that may have lost its tail. The file has the layout save() writes for
+// a journal too big for one chunk - first chunk: loader version, last event version, the first k events;
+// second chunk: the remaining events (save() itself only splits after 256 KiB, so the two chunks are
+// written here through the same ChunkedStorage2 calls) - and is cut at an arbitrary byte. The replica
+// loaded from the cut file, then synced with the source, ends exactly like a replica that never
+// restarted: same journal, same version, same state hash, every metric found by id and by name.
+func Harness_C20_reload_truncated() {
+	src := MakeJournalFast(nil, 0, false, nil)
+	names := []string{"a", "b", "ab", "bb"}
+	ids := []int64{1, 2, 3, 1 + int64(v.Choice(3))} // the 4th edit renames one of the three metrics
+	var events []tlmetadata.Event
+	var scratch []byte
+	for t := 0; t < 4; t++ {
+		ev := c20Event(&c20Entity{typ: format.MetricEvent, id: ids[t], name: names[t], version: int64(t + 1)})
+		scratch = src.addEventLocked(scratch, ev)
+		src.finishUpdateLocked()
+	}
+	// the saved journal, in order (what save() iterates)
+	src.order.Ascend(func(o journalOrder) bool {
+		events = append(events, src.journal[o.key].Event)
+		return true
+	})
+	v.Assert("C20.reload.source_has_three_entries", len(events) == 3)
+	k := 1 + v.Choice(2) // events in the first chunk
+	var file []byte
+	w := data_model.NewChunkedStorage2Slice(&file)
+	if b, err := w.ReadNext(data_model.ChunkedMagicJournal); err != nil || len(b) != 0 {
+		panic("fresh storage is not empty")
+	}
+	chunk := w.StartWriteChunk(data_model.ChunkedMagicJournal, 0)
+	chunk = basictl.LongWrite(chunk, src.currentVersion)
+	chunk = basictl.LongWrite(chunk, src.currentVersion)
+	for _, e := range events[:k] {
+		chunk = e.WriteTL1Boxed(chunk)
+	}
+	if err := w.FinishWriteChunk(chunk); err != nil {
+		panic(err.Error())
+	}
+	firstChunk := len(file)
+	chunk = w.StartWriteChunk(data_model.ChunkedMagicJournal, 0)
+	for _, e := range events[k:] {
+		chunk = e.WriteTL1Boxed(chunk)
+	}
+	if err := w.FinishWriteChunk(chunk); err != nil {
+		panic(err.Error())
+	}
+	full := len(file)
+	cut := []int{full, firstChunk, firstChunk + 7, firstChunk - 1, 0}[v.Choice(5)]
+	trunc := append([]byte(nil), file[:cut]...)
+	ms := MakeMetricsStorage(nil)
+	j, err := LoadJournalFastSlice(&trunc, 0, false, []ApplyEvent{ms.ApplyEvent})
+	if cut == full {
+		v.Assert("C20.reload.whole_file_loads_clean", err == nil && len(j.journal) == 3 && j.loaderVersion == src.currentVersion)
+		v.Reach("C20.reload.whole")
+	}
+	if cut == firstChunk {
+		v.Assert("C20.reload.first_chunk_events_loaded", len(j.journal) == k)
+		v.Reach("C20.reload.cut_at_chunk_boundary")
+	}
+	v.Assert("C20.reload.loader_version_not_beyond_loaded_events_unless_complete", j.loaderVersion == j.currentVersion || len(j.journal) == 3)
+	r := &c20Replica{j: j, ms: ms}
+	r.sync(src)
+	v.Assert("C20.reload.journal_complete_after_sync", len(r.j.journal) == len(src.journal))
+	v.Assert("C20.reload.version_after_sync", r.j.currentVersion == src.currentVersion && r.j.loaderVersion == src.currentVersion)
+	v.Assert("C20.reload.state_hash_eq_source", r.j.stateHash == src.stateHash)
+	for t := 0; t < 3; t++ {
+		e := events[t]
+		m := ms.GetMetaMetric(int32(e.Id))
+		v.Assert("C20.reload.metric_present_with_latest_name", m != nil && m.Name == e.Name && m.Version == e.Version)
+		bn := ms.GetMetaMetricByName(e.Name)
+		v.Assert("C20.reload.lookup_by_name_returns_holder", bn != nil && bn.MetricID == int32(e.Id))
+	}
+	v.Reach("C20.reload.end")
+}
